@@ -678,9 +678,20 @@ func handleRename(params internal.HandlerFuncParams) ([]byte, error) {
 		return nil, errors.New("no such key")
 	}
 
+	if oldKey == newKey {
+		// Renaming a key to itself changes nothing (deleting the "old" key below would lose it).
+		return []byte("+OK\r\n"), nil
+	}
+
+	// The deadline moves with the value.
+	oldExpiry := params.GetExpiry(params.Context, oldKey)
+
 	// Set the new key with the old value
 	if err := params.SetValues(params.Context, map[string]interface{}{newKey: oldValue}); err != nil {
 		return nil, err
+	}
+	if oldExpiry != params.GetExpiry(params.Context, newKey) {
+		params.SetExpiry(params.Context, newKey, oldExpiry, false)
 	}
 
 	// Delete the old key
